@@ -47,6 +47,9 @@ type RpcCall struct {
 	// by that deadline has done nothing and is repeated.
 	OpCtx int `json:"op_ctx,omitempty"`
 	OpUs  int `json:"op_us,omitempty"`
+	// ExtraPolls: channel kind: after its Receive loop saw the end of the stream the caller polls Receive this
+	// many more times (a drain loop, a defensive re-poll) before it asks for the response
+	ExtraPolls int `json:"extra_polls,omitempty"`
 }
 
 type RpcPlan struct {
@@ -118,6 +121,9 @@ func genRpcPlan(g *simrt.Rng, tier string) *RpcPlan {
 			if g.Bool(0.5) && c.DelayUs < c.CancelUs {
 				c.DelayUs = c.CancelUs * 2 // make sure the cancellation lands while the call waits
 			}
+		}
+		if c.Kind == "channel" && g.Bool(0.2) {
+			c.ExtraPolls = 1 + g.IntN(2)
 		}
 		if c.Kind == "channel" && c.CancelUs == 0 && g.Bool(0.15) {
 			c.OpCtx = 1 + g.IntN(2)
@@ -482,6 +488,11 @@ func (r *rpcRun) clientCall(id int, cl rpc.Client) {
 			}
 			if !r.p.Faulty && !cut && !c.Skip && s.cliGot != len(c.SrvStream) {
 				r.fail("C04-stream-incomplete", "call %d: the caller read the stream to its end and got %d of %d messages before the end marker", id, s.cliGot, len(c.SrvStream))
+			}
+			for k := 0; k < c.ExtraPolls && !cut; k++ {
+				if msg, st := ch.Receive(ctx); st.OK() && !r.p.Faulty {
+					r.fail("C04-stream-content", "call %d: a Receive after the end of the stream returned another message (%d bytes)", id, len(msg))
+				}
 			}
 		}
 		var val spec.Value
